@@ -12,7 +12,12 @@ META = {
             "sequence of collectives, so none waits forever) and every write to the file system is executed by rank 0 only. Bounded (not counted as proved): real generation on the "
             "multi-process MPI stand-in with P in {1,2,3,5,16} (more ranks than functions with a map), perturbed rank speeds; tree, function and "
             "code-length files compared bytewise with the single-rank run, the unique/match/map triple checked with the C03 library predicate, every "
-            "rank must terminate. The SPMD lifting of the individual gather/bcast sites is not discharged deductively yet.",
+            "rank must terminate; make_changes alone on (N, P) pairs with random changes. "
+            "simplifier.make_changes, the cross-rank merge of the rewriting results, is verified as a whole for all N, P and every rank with the SPMD rule for its gather/bcast pairs "
+            "(guarantee proved at the sending rank, rely assumed at the receiver): afterwards the replicated string list is the concatenation of the ranks' local lists in rank order, "
+            "expressions and maps are taken (copied) exactly where a string changed; the all-to-all exchange of the printed strings in initial_sympify is verified the same way "
+            "(every rank ends with the concatenation of the ranks' lists in rank order). The dictionary merge of initial_sympify and the gathers of do_sympy / simplify_inv_subs / "
+            "check_results are not lifted deductively; they are covered by the structural obligations and the bounded runs.",
     "note": "A-mpi (stand-in delivers collectives in rank order like MPI), A-hash (hash seed fixed per run). Bounded: core_maths/ext_maths, complexities in evidence.",
     "technique": "contract-based deductive verification of the partition function + bounded multi-process stand-in of generation",
 }
@@ -27,6 +32,36 @@ def check(run):
     st2, failed2, _e = D.verify_function(run, "generation/generator.py", "shape_to_functions", c_generator.stf_slice_contract, timeout_ms=8000, tag="slice",
                                          note="region: split_idx call and the empty-slice branch; the guard of find_additional_trees is evaluated in the final state")
     failed = list(failed) + list(failed2)
+    # the cross-rank merge of the rewriting results (SPMD rule for gather / bcast, see contracts/c_spmd.py)
+    from contracts import c_spmd
+    st3, failed3, _e3 = D.verify_function(run, "generation/simplifier.py", "make_changes", c_spmd.make_changes_contract, timeout_ms=10000,
+                                          note="whole function; collectives by the SPMD rule (guarantee at the sending rank, rely at the receiver); "
+                                               "utils.split_idx by its contract with the slice starts abstracted to LO (facts proved as lemmas)")
+    st4, failed4, _e4 = D.verify_function(run, "generation/simplifier.py", "initial_sympify", c_spmd.initial_sympify_merge_contract, timeout_ms=10000, tag="exchange",
+                                          note="region: the all-to-all exchange of the printed strings after the per-rank sympify loop (gather of the slice lengths, "
+                                               "cumulative sum, one bcast per root); the merge of the expression dictionaries that follows is not under contract")
+    if st4 == "proved" and D.canary(run, "generation/simplifier.py", "initial_sympify", c_spmd.initial_sympify_merge_contract) is False:
+        raise RuntimeError("canary verified: engine vacuous on the exchange region of initial_sympify")
+    failed3 = list(failed3) + list(failed4)
+    lfailed = D.prove_lemmas(run, "make_changes: slice starts", c_spmd.lo_lemmas())
+    if st3 == "proved" and D.canary(run, "generation/simplifier.py", "make_changes", c_spmd.make_changes_contract) is False:
+        raise RuntimeError("canary verified: engine vacuous on make_changes")
+    np_list = [[0, 1], [1, 3], [5, 2], [7, 3], [10, 16], [23, 4]] if tier == "quick" else \
+        [[0, 1], [0, 3], [1, 3], [2, 5], [5, 2], [7, 3], [10, 16], [16, 16], [17, 16], [23, 4], [40, 7], [64, 5]]
+    rm = run.harness("rt_merge.py", {"NP": np_list, "seeds": 2 if tier == "quick" else 4, "seed": run.seed}, timeout=1200)
+    run.add_bounded("make_changes on P ranks: every rank ends with the concatenation of the local string lists; expressions and maps follow exactly where the string changed",
+                    "simplifier.make_changes on the MPI stand-in", "(N, P) in %s, random changes" % np_list, rm["cases"], rm["distinct"], len(rm["failures"]))
+    merge_found = False
+    for f in rm["failures"][:1]:
+        merge_found = True
+        run.violation("merge:N=%s:P=%s" % (f["N"], f["P"]), f["error"][:900],
+                      {"harness": "rt_merge.py", "payload": {"NP": [[f["N"], f["P"]]], "exact_seeds": [f["seed"]]}})
+    if (failed3 or lfailed) and not merge_found:
+        from checks.C14 import report_unproved
+        if failed3:
+            report_unproved(run, failed3, False, "cross-rank merge (make_changes / initial_sympify exchange)")
+        else:
+            run.violation("lemma:" + lfailed[0][0][:60], "lemma about the slice starts is no longer proved: %s" % lfailed[0][0], {"lemma": lfailed[0][0], "model": str(lfailed[0][1])[:2000]}, no_input=True)
     sfailed = D.structural_spmd(run, ["generation/generator.py", "generation/simplifier.py", "generation/duplicate_checker.py"], "generation")
     plist = [1, 2, 5, 16] if tier == "quick" else [1, 2, 3, 5, 7, 16]
     groups = [[{"runname": "core_maths", "n": 3, "P_list": plist, "perturb": True}],
